@@ -1,6 +1,9 @@
-\* JsonWriter, quick tier: every unit sequence of length <= 3 over the 35 units
-\* (23 byte classes + 7 valid and 5 invalid multi-byte sequences) and every
-\* scalar case.  Repaired behaviour (no deviation).
+\* JsonWriter, quick tier.  MaxLen = 3: every unit sequence of length <= 3 over
+\* the 35 units (23 byte classes + 7 well-formed and 5 ill-formed multi-byte
+\* sequences; byte length up to 12) = 44,136 string inputs, plus all 1,440 scalar
+\* cases.  Repaired behaviour (both deviations off).
+\* Measured: 91,152 states generated / distinct (2 per input), depth 2, about 12 s with 2
+\* workers (27 s with 1).  -coverage 1: WriteQuotedString and EncodeScalar both taken.
 SPECIFICATION Spec
 CONSTANTS
   MaxLen = 3
@@ -8,6 +11,6 @@ CONSTANTS
   CopyInvalidVerbatim = FALSE
   UintIDWraps = FALSE
   EmitLines = TRUE
-INVARIANTS TypeOK ThmAccepted ThmValidUtf8 ThmDecodes ThmRuneAtIsRef ThmNoSilentWrap ThmRoundTripCloses ThmNonFinite ThmRanges
+INVARIANTS TypeOK ThmAccepted ThmValidUtf8 ThmDecodes ThmRuneAtIsRef ThmNoSilentWrap ThmRoundTripCloses ThmNonFinite
 ACTION_CONSTRAINT Emit
 CHECK_DEADLOCK FALSE
